@@ -12,7 +12,7 @@
        contract of AbortHandle::abort (assumed, DESIGN section 4).  REAL chains of depth 1..3 are
        run and checked on every run (part `chain` of the check).
    The hypothesis reuse_only_after_completion (B1) is necessary: _refuted witness.
-   NOT yet proved as a theorem (checked by the monitor on every run):
+   Monitor theorem (proved, see the end of this file; also evaluated on the real traces on every run):
      C04_monitor : forall c t0 ops, c04_ok c ops (fst (srun c t0 ops)) = true
    (after the op in which Cancel id is read no later OHPolled for that incarnation and no
    response bearing id until a new request with that id is accepted).  The exact statement, for
@@ -82,8 +82,22 @@ Example C04_nonvacuous :
      [OCalls [CNext RPending; CReady TOk; CFlush TOk]; OPending; OGauges 0 0]].
 Proof. vm_compute. reflexivity. Qed.
 
+From TarpcV Require Import ServerFuel ServerSpec ServerProofsPA4 ServerProofsPB6 ServerProofsPC10 ServerProofsPC3.
+
+(* THE MONITOR THEOREM (single channel): for every transport, configuration and op list the C04
+   monitor accepts the run: after the op in which Cancel id is read while id is tracked, no later
+   poll of that incarnation's handler, no response bearing id until a new request with that id is
+   accepted, and the in-flight count drops; a Cancel for an untracked id changes nothing.
+   (Hypotheses B1 and stops_after_error inside the monitor.) *)
+Theorem C04_monitor : forall (T C : Type) (tp : transport T response cmsg) (ctl : T -> C -> T)
+    (tfuel : T -> nat) (c : cfg) (t0 : T) (ops : list (op C)),
+  tfuel_ok tp tfuel ->
+  c04_ok c ops (fst (run tp ctl tfuel c t0 ops)) = true.
+Proof. exact s04_proved. Qed.
+
 Print Assumptions C04_cancel_stops_tracked.
 Print Assumptions C04_aborted_never_progresses.
 Print Assumptions C04_cancel_unknown_frame.
 Print Assumptions C04_cascade_partial.
 Print Assumptions C04_reuse_after_cancel_refuted.
+Print Assumptions C04_monitor.
